@@ -6,6 +6,7 @@ import (
 	"go/token"
 	"go/types"
 	"sort"
+	"strings"
 
 	"golang.org/x/tools/go/ssa"
 
@@ -237,6 +238,9 @@ func checkC02(p *core.Program, r *core.Report) {
 
 	checkTLSConfig(p, r, R3, skiFn)
 	checkSkiBinding(p, r, R4, skiFn)
+	const R5 = "C02.R5 attributed-ski-is-the-certificates"
+	r.Rule(R5, "the canonicalisation every hub identity goes through only removes separators and folds case (shared with C15.R2): anything more - e.g. a TrimLeft cutset that also eats leading '0' digits - attributes the connection to a string that is not the certificate's 40-digit SKI and refuses the genuine device on the outbound path")
+	importRules(p, r, "C15", map[string]string{"C15.R2 internal-skis-canonical": R5}, func(key string) bool { return strings.Contains(key, "util.NormalizeSKI") })
 }
 
 // derivesFromThroughHub: like derivesFrom, but also follows results of hub
